@@ -178,6 +178,7 @@ var preSyms = []sym{
 	{"PINGREQ(cl)", func() *snref.Pkt { return snref.Pingreq("cl") }},
 	{"DISCONNECT", func() *snref.Pkt { return snref.Disconnect() }},
 	{"DISCONNECT(30)", func() *snref.Pkt { return snref.Sleep(30) }},
+	{"DISCONNECT(explicit 0)", func() *snref.Pkt { return &snref.Pkt{Type: snref.DISCONNECT, HasDur: true, Duration: 0} }},
 	{"PUBACK", func() *snref.Pkt { return snref.Puback(1, 1, 0) }},
 }
 
